@@ -119,8 +119,8 @@ theorem inv5_step {c : Cfg} (hw : c.wiring = Wiring.std) {s s' : State} {a : Act
       · exact g4 hp x hx
   | workerEnd w o cancel =>
     obtain ⟨j, hj, rfl⟩ := inv_workerEnd hs
-    have hab : (afterBody s j o cancel).loop = s.loop ∧ (afterBody s j o cancel).ws = s.ws ∧
-        (afterBody s j o cancel).enq = s.enq ∧ (afterBody s j o cancel).caller = s.caller := by
+    have hab : (afterBody c s j o cancel).loop = s.loop ∧ (afterBody c s j o cancel).ws = s.ws ∧
+        (afterBody c s j o cancel).enq = s.enq ∧ (afterBody c s j o cancel).caller = s.caller := by
       unfold afterBody; split <;> simp
     refine ⟨by simpa [hab] using g1, by simpa [hab] using g2, by simpa [hab] using g3, ?_, by simpa [hab] using g5, fun _ => trivial⟩
     intro hp x hx
@@ -149,7 +149,7 @@ theorem inv5_step {c : Cfg} (hw : c.wiring = Wiring.std) {s s' : State} {a : Act
     refine ⟨by simpa using g1, by simpa using g2, by simpa using g3, ?_, by simpa using g5, fun _ => trivial⟩
     intro hp'; simp [hp] at hp'
   | cancel =>
-    obtain ⟨_, rfl⟩ := inv_cancel hs
+    obtain ⟨_, _, rfl⟩ := inv_cancel hs
     exact ⟨by simpa using g1, by simpa using g2, by simpa using g3, by simpa using g4, by simpa using g5, fun _ => trivial⟩
 
 
